@@ -16,6 +16,9 @@ def build(run):
     run.verify_c([mb])
     run.verify_c([N.multiply_borns_contract()], registry={"multiply_borns_at_ij": mb})
     run.verify_c([N.multiply_borns_safety_contract()])
+    gd = N.get_dd_at_g_contract()
+    run.verify_c([gd])
+    run.verify_c([N.get_dd_contract()], registry={"get_dielectric_part": dp, "get_dd_at_g": gd})
     N.wang_lemmas(run)
     BZ.brillouin_zone(run)
     DN.nac_factor_contract(run)
